@@ -170,7 +170,8 @@ func runC08(w *World, r *Report) {
 	c08Handlers(w, r)
 	c08Publish(w, r)
 	c08Ownership(w, r)
-	r.Min("R1", 5)
+	c08SnapshotCompleteness(w, r)
+	r.Min("R1", 6)
 	r.Min("R2", 2)
 	r.Min("R3", 6)
 	r.Min("R4", 2)
@@ -503,4 +504,48 @@ func keysOf(m map[string]bool) []string {
 	}
 	sortStrings(out)
 	return out
+}
+
+// c08SnapshotCompleteness: the checksums Restore diffs by are computed over
+// the COMPLETE snapshot (after every directory and every single file has been
+// read), and the directory walk descends into sub-directories - what CleanAll
+// wipes recursively, the snapshot must contain recursively.
+func c08SnapshotCompleteness(w *World, r *Report) {
+	const fsT = "FileSystemOperation)."
+	if cb := w.Fn(pkgConfig, "FileSystemOperation.createFileSystemBackUp"); cb == nil {
+		r.Undec("R1", "createFileSystemBackUp", token.NoPos, "function not found")
+	} else {
+		md5 := CallsIn(cb, false, "FileSystemBackUp).SetMD5OfStorage")
+		reads := append(CallsIn(cb, false, fsT+"backupDirectory"), CallsIn(cb, false, fsT+"backupFile")...)
+		ok := len(md5) == 1 && len(reads) == 2
+		if ok {
+			for _, rd := range reads {
+				// the checksum call is reached only after the loop containing the read is done
+				if reachableFrom(md5[0].Block(), nil)[rd.Block()] || md5[0].Block() == rd.Block() {
+					ok = false
+				}
+			}
+			for _, alt := range ReturnAlts(cb, 1) {
+				if isNilConst(alt.Val) && !domInstr(md5[0], alt.Ret) {
+					ok = false
+				}
+			}
+		}
+		r.Check(ok, "R1", "createFileSystemBackUp/checksums-over-the-complete-snapshot", cb.Pos(), "SetMD5OfStorage runs once, after both the directory pass and the single-file pass, and before the successful return")
+	}
+	if bd := w.Fn(pkgConfig, "FileSystemOperation.backupDirectory"); bd == nil {
+		r.Undec("R2", "backupDirectory", token.NoPos, "function not found")
+	} else {
+		skip := false
+		for _, g := range Anons(bd) {
+			Instrs(g, func(in ssa.Instruction) {
+				if u, ok := in.(*ssa.UnOp); ok {
+					if gl, isG := u.X.(*ssa.Global); isG && (gl.Name() == "SkipDir" || gl.Name() == "SkipAll") {
+						skip = true
+					}
+				}
+			})
+		}
+		r.Check(!skip, "R2", "backupDirectory/walk-descends-into-sub-directories", bd.Pos(), "the snapshot walk never returns filepath.SkipDir/SkipAll: nested files are part of the snapshot, like they are part of what the clean-up removes")
+	}
 }
